@@ -435,6 +435,7 @@ pub fn sites(tier: Tier) -> Vec<Site> {
                 }
             }));
     }
+    sites.push(after_writer_failure_site("C03"));
     // MSO built through the typed API with names of every length and code-page class (the frame must decode again)
     sites.push(super::c01::mso_name_text_site("C03"));
     // ... nor between threads: histories of 2 and 3 encodes spread over two threads (refused packets among them)
@@ -452,6 +453,58 @@ pub fn sites(tier: Tier) -> Vec<Site> {
     }
     let _ = Packet::default();
     sites
+}
+
+/// A writer that fails hard part-way (the packets' BinWrite is public and takes any Write + Seek: a slice that is too
+/// small answers WriteZero) leaves nothing behind either: every kind's B1 packet written into a slice of every length
+/// shorter than its body, then every text-bearing kind's B1 packet encoded on the same thread - its frame is its own.
+pub fn after_writer_failure_site(prop: &'static str) -> Site {
+    use insim::core::binrw::BinWrite;
+    let mut firsts: Vec<(String, Packet, usize)> = vec![];
+    let mut followers: Vec<(String, bool, Packet, Vec<u8>)> = vec![];
+    for k in spec::load().iter() {
+        let vals = crate::gen::baseline(k, 1);
+        let Some(f) = spec::ref_encode(k, &vals, true) else { continue };
+        let codec = Codec::new(mode_of(true));
+        let mut b = BytesMut::from(&f[..]);
+        let Ok(Some(p)) = codec.decode(&mut b) else { continue };
+        let Ok(Ok(own)) = guard(|| codec.encode(&p)) else { continue };
+        firsts.push((k.name.clone(), p.clone(), own.len() - 1));
+        let has_text = k.fields.iter().any(|f| matches!(f.ty, spec::Ty::Text(_) | spec::Ty::VarText { .. } | spec::Ty::Raw(_)));
+        if has_text || k.name == "TINY" {
+            followers.push((k.name.clone(), true, p.clone(), own.to_vec()));
+            if let Some(fu) = spec::ref_encode(k, &vals, false) {
+                let cu = Codec::new(mode_of(false));
+                let mut bu = BytesMut::from(&fu[..]);
+                if let Ok(Some(pu)) = cu.decode(&mut bu) { if let Ok(Ok(ownu)) = guard(|| cu.encode(&pu)) { followers.push((k.name.clone(), false, pu, ownu.to_vec())); } }
+            }
+        }
+    }
+    let mut cases: Vec<(usize, usize)> = vec![];
+    for (fi, (_, _, len)) in firsts.iter().enumerate() { for room in 0..*len { cases.push((fi, room)); } }
+    let (firsts, followers, cases) = (Arc::new(firsts), Arc::new(followers), Arc::new(cases));
+    let n = cases.len() as u64;
+    Site::new("encode-after-writer-failure", n,
+        "every kind's B1 packet written through its public BinWrite into a slice of every length shorter than its body (the write fails with WriteZero at that byte), then every text-bearing kind's B1 packet (both modes) encoded on the same thread: each frame is the one the packet has on its own",
+        move |i, acc| {
+            acc.eval();
+            let (fi, room) = cases[i as usize];
+            let (fname, p, _) = &firsts[fi];
+            let first = guard(|| { let mut space = vec![0u8; room]; let mut c = std::io::Cursor::new(&mut space[..]); p.write_le(&mut c).is_ok() });
+            for (kname, c, q, own) in followers.iter() {
+                let replay = json!({"site": "encode-after-writer-failure", "index": i, "first": fname, "room": room, "then": kname});
+                match guard(|| Codec::new(mode_of(*c)).encode(q).map(|b| b.to_vec())) {
+                    Ok(Ok(b)) if b == *own => {},
+                    other => {
+                        acc.violate(i, format!("{prop}|{kname}|frame-depends-on-an-earlier-failed-write"), format!("{kname} encoded right after {fname} was written into a {room}-byte slice ({}): {} ; on its own {}", match first { Ok(true) => "accepted?!", Ok(false) => "refused", Err(_) => "panicked" },
+                            match other { Ok(Ok(b)) => hex(&b[..b.len().min(32)]), Ok(Err(e)) => e.to_string(), Err(pn) => pn }, hex(&own[..own.len().min(32)])), replay);
+                        return;
+                    },
+                }
+            }
+            acc.class("nothing-left-behind-by-a-failed-write");
+            acc.nontrivial();
+        })
 }
 
 /// The layout of a frame does not depend on what the encoder was asked before: every kind's B1 packet (both
